@@ -2,49 +2,166 @@
 From Verif Require Import Lib.Bytes Lib.Obs Lib.Base64 Lib.Percent Lib.Utf8 Lib.HeaderMap.
 From Verif Require Import Gen.StatusTables Model.Status Proofs.Status Model.Metadata Proofs.Metadata.
 From Verif Require Import Model.Interceptor.
+From Coq Require Import Lia.
 Open Scope N_scope.
 
 (* ------------------------------------------------------------------ accept *)
-(* for ANY interceptor function: when it accepts, the inner service is called exactly once,
+(* for ANY interceptor (a function of its own state), ANY inner service (an interface over its
+   state) and any request: when the interceptor accepts, the inner service's call is invoked
    with the interceptor's metadata (as is, nothing removed) and extensions and the original
-   method, uri, version and body; the caller gets the inner service's answer *)
-Theorem accept_preserves {E B Err P RB} (f : interceptor E) (inner : http_request E B -> Err + (P * RB)) req r' :
-  f (mkReq (from_headers (rq_headers req)) (rq_ext req) tt) = inl r' ->
-  intercepted_call f inner req =
+   method, uri, version and body; the returned future is the inner one *)
+Theorem accept_preserves {IS SS E B Err Fut} (f : interceptor IS E)
+    (inner : svc_impl SS (http_request E B) Err Fut) is ss req r' is' :
+  f is (mkReq (from_headers (rq_headers req)) (rq_ext req) tt) = (inl r', is') ->
+  intercepted_call f inner (is, ss) req =
     let req' := mkHttpReq (rq_method req) (rq_uri req) (rq_version req)
                           (into_headers (tr_md r')) (tr_ext r') (rq_body req) in
-    ([req'], Val (wrap_inner (inner req'))).
+    (KFuture (fst (sv_call inner ss req')), (is', snd (sv_call inner ss req'))).
 Proof.
   intros H. unfold intercepted_call, request_from_http, request_into_http, request_headers.
-  cbn [tr_md tr_ext tr_msg]. rewrite H. reflexivity.
+  cbn [tr_md tr_ext tr_msg fst snd]. rewrite H.
+  destruct (sv_call inner ss _) as [fu ss']. reflexivity.
 Qed.
 
 (* every header name, reserved ones included, carries exactly the interceptor's values *)
-Corollary accept_headers_unsanitised {E B Err P RB} (f : interceptor E) (inner : http_request E B -> Err + (P * RB)) req r' :
-  f (mkReq (from_headers (rq_headers req)) (rq_ext req) tt) = inl r' ->
-  exists req', fst (intercepted_call f inner req) = [req'] /\
+Corollary accept_headers_unsanitised {IS SS E B Err Fut} (f : interceptor IS E)
+    (inner : svc_impl SS (http_request E B) Err Fut) is ss req r' is' :
+  f is (mkReq (from_headers (rq_headers req)) (rq_ext req) tt) = (inl r', is') ->
+  exists req',
+    intercepted_call f inner (is, ss) req =
+      (KFuture (fst (sv_call inner ss req')), (is', snd (sv_call inner ss req'))) /\
     forall k, hm_get_all (rq_headers req') k = hm_get_all (tr_md r') k.
 Proof.
-  intros H. rewrite (accept_preserves f inner req r' H). eexists. split; [reflexivity|]. reflexivity.
+  intros H. rewrite (accept_preserves f inner is ss req r' is' H). eexists. split; reflexivity.
 Qed.
 
 (* what the interceptor left alone arrives as it was sent *)
-Corollary accept_untouched {E B Err P RB} (f : interceptor E) (inner : http_request E B -> Err + (P * RB)) req r' k :
-  f (mkReq (from_headers (rq_headers req)) (rq_ext req) tt) = inl r' ->
+Corollary accept_untouched {IS SS E B Err Fut} (f : interceptor IS E)
+    (inner : svc_impl SS (http_request E B) Err Fut) is ss req r' is' k :
+  f is (mkReq (from_headers (rq_headers req)) (rq_ext req) tt) = (inl r', is') ->
   hm_get_all (tr_md r') k = hm_get_all (rq_headers req) k ->
-  exists req', fst (intercepted_call f inner req) = [req'] /\
+  exists req',
+    intercepted_call f inner (is, ss) req =
+      (KFuture (fst (sv_call inner ss req')), (is', snd (sv_call inner ss req'))) /\
     hm_get_all (rq_headers req') k = hm_get_all (rq_headers req) k /\
     rq_method req' = rq_method req /\ rq_uri req' = rq_uri req /\ rq_version req' = rq_version req /\
-    rq_body req' = rq_body req.
+    rq_body req' = rq_body req /\ rq_ext req' = tr_ext r'.
 Proof.
-  intros H Hk. rewrite (accept_preserves f inner req r' H). eexists. split; [reflexivity|].
+  intros H Hk. rewrite (accept_preserves f inner is ss req r' is' H). eexists. split; [reflexivity|].
   cbn. repeat split. exact Hk.
 Qed.
 
-(* the identity interceptor is invisible *)
-Corollary accept_identity {E B Err P RB} (inner : http_request E B -> Err + (P * RB)) req :
-  intercepted_call (fun r => inl r) inner req = ([req], Val (wrap_inner (inner req))).
-Proof. destruct req. reflexivity. Qed.
+(* the identity interceptor is invisible: the inner service is called with the very request *)
+Corollary accept_identity {IS SS E B Err Fut} (inner : svc_impl SS (http_request E B) Err Fut) (is : IS) ss req :
+  intercepted_call (fun i r => (inl r, i)) inner (is, ss) req =
+    (KFuture (fst (sv_call inner ss req)), (is, snd (sv_call inner ss req))).
+Proof.
+  rewrite (accept_preserves (fun i r => (inl r, i)) inner is ss req _ is eq_refl).
+  destruct req. reflexivity.
+Qed.
+
+(* a rejected call: the inner service is not touched at all - its state is the one it had -
+   and the future is the Status kind holding precisely that status *)
+Theorem reject_never_calls {IS SS E B Err Fut} (f : interceptor IS E)
+    (inner : svc_impl SS (http_request E B) Err Fut) is ss req st is' :
+  f is (mkReq (from_headers (rq_headers req)) (rq_ext req) tt) = (inr st, is') ->
+  intercepted_call f inner (is, ss) req = (KStatus (Some st), (is', ss)).
+Proof.
+  intros H. unfold intercepted_call, request_from_http. cbn [tr_md tr_ext tr_msg fst snd].
+  rewrite H. reflexivity.
+Qed.
+
+(* ------------------------------------------------------------------ any sequence of uses *)
+(* for ANY interceptor with state, ANY inner service and ANY sequence of poll_ready / call:
+   the inner service is used exactly as the interceptor's verdicts say - every poll_ready is
+   passed on, an accepted call is passed on with the rebuilt request, a rejected call never
+   reaches it - and the caller's results are the inner service's, call futures wrapped *)
+Theorem service_trace {IS SS E B Err Fut} (f : interceptor IS E)
+    (inner : svc_impl SS (http_request E B) Err Fut) ops : forall is ss,
+  svc_run (intercepted_service f inner) (is, ss) ops =
+    (outer_results (fst (verdicts f is ops)) (fst (svc_run inner ss (inner_ops (fst (verdicts f is ops))))),
+     (snd (verdicts f is ops), snd (svc_run inner ss (inner_ops (fst (verdicts f is ops)))))).
+Proof.
+  induction ops as [|o ops IH]; intros is ss; [reflexivity|].
+  destruct o as [|req].
+  - cbn [svc_run intercepted_service sv_ready sv_call verdicts].
+    unfold intercepted_poll_ready. cbn [fst snd].
+    destruct (sv_ready inner ss) as [x ss1] eqn:R.
+    rewrite IH. destruct (verdicts f is ops) as [vs is'] eqn:V. cbn [fst snd inner_ops svc_run].
+    rewrite R. destruct (svc_run inner ss1 (inner_ops vs)) as [ir ss'] eqn:I. reflexivity.
+  - cbn [svc_run intercepted_service sv_ready sv_call verdicts].
+    unfold intercepted_call, request_from_http, request_into_http, request_headers.
+    cbn [tr_md tr_ext tr_msg fst snd].
+    destruct (f is _) as [out is1] eqn:F. destruct out as [r'|st].
+    + destruct (sv_call inner ss _) as [fu ss1] eqn:C.
+      rewrite IH. destruct (verdicts f is1 ops) as [vs is'] eqn:V. cbn [fst snd inner_ops svc_run].
+      rewrite C. destruct (svc_run inner ss1 (inner_ops vs)) as [ir ss'] eqn:I. reflexivity.
+    + rewrite IH. destruct (verdicts f is1 ops) as [vs is'] eqn:V. cbn [fst snd inner_ops].
+      destruct (svc_run inner ss (inner_ops vs)) as [ir ss'] eqn:I. reflexivity.
+Qed.
+
+(* the recording service of the harness logs exactly the uses made of it *)
+Definition entry_of (o : sop hreq) : rec_entry := match o with SReady => LReady | SCall r => LCall r end.
+Lemma rec_run_log pend ans iops : forall script log,
+  snd (snd (svc_run (rec_svc pend ans) (script, log) iops)) = log ++ map entry_of iops.
+Proof.
+  induction iops as [|o iops IH]; intros script log; cbn [svc_run].
+  - cbn. now rewrite app_nil_r.
+  - destruct o as [|r]; cbn [rec_svc sv_ready sv_call].
+    + unfold rec_ready. cbn [fst snd]. destruct script as [|[t e] script'].
+      * specialize (IH [] (log ++ [LReady])).
+        destruct (svc_run (rec_svc pend ans) ([], log ++ [LReady]) iops) as [l s'']. cbn [snd] in *.
+        rewrite IH, <- app_assoc. reflexivity.
+      * specialize (IH script' (log ++ [LReady])).
+        destruct (svc_run (rec_svc pend ans) (script', log ++ [LReady]) iops) as [l s'']. cbn [snd] in *.
+        rewrite IH, <- app_assoc. reflexivity.
+    + unfold rec_call. cbn [fst snd]. specialize (IH script (log ++ [LCall r])).
+      destruct (svc_run (rec_svc pend ans) (script, log ++ [LCall r]) iops) as [l s'']. cbn [snd] in *.
+      rewrite IH, <- app_assoc. reflexivity.
+Qed.
+
+(* ... so what the harness's recorder holds after any sequence of uses of the intercepted
+   service is the interceptor's verdicts: rejected calls are absent, accepted ones carry the
+   rebuilt request, poll_ready is passed through one for one *)
+Theorem recorder_sees {IS} (f : interceptor IS ext_t) pend ans ops is script :
+  snd (snd (snd (svc_run (intercepted_service f (rec_svc pend ans)) (is, (script, [])) ops))) =
+    map entry_of (inner_ops (fst (verdicts f is ops))).
+Proof. rewrite service_trace. cbn [snd]. now rewrite rec_run_log. Qed.
+
+(* ------------------------------------------------------------------ futures *)
+(* an accepted call's future is the inner future, poll for poll: Pending stays Pending, the
+   error stays the error, a response keeps its head and gets its body wrapped; no poll panics *)
+Theorem future_transparent {Fut Err P RB} (fp : fut_impl Fut (Err + (P * RB))) n : forall f,
+  rf_run fp (KFuture f) n = map (fun r => Val (poll_map wrap_inner r)) (fut_run fp f n).
+Proof.
+  induction n as [|n IH]; intros f; [reflexivity|].
+  cbn [rf_run fut_run rf_poll]. destruct (fp f) as [r f']. cbn [map]. now rewrite IH.
+Qed.
+
+(* ------------------------------------------------------------------ bodies *)
+(* an accepted call's body IS the inner body for every use in every order: frames (data,
+   trailers, errors, Pending), is_end_stream and size_hint at every point *)
+Theorem body_wrap_transparent {RB F Er} (bi : body_impl RB F Er) ops : forall b,
+  body_run (rb_impl bi) (RbWrap b) ops = body_run bi b ops.
+Proof.
+  induction ops as [|o ops IH]; intros b; [reflexivity|].
+  destruct o; cbn [body_run rb_impl bi_poll bi_end bi_hint rb_poll_frame rb_is_end_stream rb_size_hint].
+  - destruct (bi_poll bi b) as [x b']. now rewrite IH.
+  - now rewrite IH.
+  - now rewrite IH.
+Qed.
+
+(* the body of a rejected call: every poll_frame answers None, is_end_stream is true and
+   size_hint is exactly 0, at every point and for ever - whatever the inner body type is *)
+Definition empty_answer {F Er} (o : bop) : bobs F Er :=
+  match o with BPoll => OPoll PfNone | BEnd => OEnd true | BHint => OHint (0, Some 0) end.
+Theorem body_empty_inert {RB F Er} (bi : body_impl RB F Er) ops :
+  body_run (rb_impl bi) RbEmpty ops = map empty_answer ops.
+Proof.
+  induction ops as [|o ops IH]; [reflexivity|].
+  destruct o; cbn [body_run rb_impl bi_poll bi_end bi_hint rb_poll_frame rb_is_end_stream rb_size_hint map empty_answer];
+    now rewrite IH.
+Qed.
 
 (* ------------------------------------------------------------------ reject *)
 Lemma set_by_neq n o k : bytes_eqb n k = false -> set_by n o k = false.
@@ -104,15 +221,104 @@ Proof.
   - cbn zeta. rewrite Dmsg, Hutf, Ddet. eexists. repeat split; try reflexivity; try exact Hm1; try exact Hback. exact MD'.
 Qed.
 
-(* for ANY interceptor function: when it rejects with [st], the inner service is not called
-   and the answer is HTTP 200 (default version) whose headers are Status::add_header of exactly
-   [st] onto {content-type: application/grpc}: one content-type, one grpc-status, the
-   percent-encoded message and base64 details when non-empty, the sanitised status metadata *)
-Theorem reject_vetoes {E B Err P RB} (f : interceptor E) (inner : http_request E B -> Err + (P * RB)) req st :
-  f (mkReq (from_headers (rq_headers req)) (rq_ext req) tt) = inr st ->
+(* ------------------------------------------------------------------ header-map capacity *)
+Lemma filter_len {A} (p : A -> bool) l : (length (filter p l) <= length l)%nat.
+Proof. induction l as [|x l IH]; cbn; [lia|]. destruct (p x); cbn; lia. Qed.
+Lemma insert_key_length k ks : (length (insert_key k ks) <= S (length ks))%nat.
+Proof.
+  induction ks as [|k' r IH]; cbn [insert_key length]; [lia|].
+  destruct (bytes_eqb k k'); [cbn [length]; lia|]. destruct (bytes_ltb k k'); cbn [length]; lia.
+Qed.
+Lemma sorted_keys_length m : (length (sorted_keys m) <= length m)%nat.
+Proof.
+  unfold sorted_keys. induction m as [|e m IH]; cbn [map fold_right length]; [lia|].
+  pose proof (insert_key_length (fst e) (fold_right insert_key [] (map fst m))). lia.
+Qed.
+Lemma names_count_le m : names_count m <= N.of_nat (length m).
+Proof. unfold names_count. pose proof (sorted_keys_length m). lia. Qed.
+Lemma remove_length m k : (length (hm_remove m k) <= length m)%nat.
+Proof. apply filter_len. Qed.
+Lemma remove_all_length ks : forall m, (length (hm_remove_all m ks) <= length m)%nat.
+Proof.
+  unfold hm_remove_all. induction ks as [|k ks IH]; intros m; cbn [fold_left]; [lia|].
+  pose proof (IH (hm_remove m k)). pose proof (remove_length m k). lia.
+Qed.
+Lemma insert_length m k v : (length (hm_insert m k v) <= S (length m))%nat.
+Proof. unfold hm_insert. rewrite app_length. cbn [length]. pose proof (remove_length m k). lia. Qed.
+Lemma ins_opt_length h n o : (length (ins_opt h n o) <= S (length h))%nat.
+Proof. destruct o; cbn [ins_opt]; [apply insert_length|lia]. Qed.
+Lemma extend_length m o : (length (hm_extend m o) <= length m + length o)%nat.
+Proof. unfold hm_extend. rewrite app_length. pose proof (filter_len (fun e => negb (hm_contains o (fst e))) m). lia. Qed.
+
+(* Status::add_header adds at most the three status headers to the target and the metadata *)
+Lemma add_header_length st m0 h :
+  well_formed st -> add_header st m0 = Some h ->
+  (length h <= length m0 + length (st_md st) + 3)%nat.
+Proof.
+  intros WF Hh. pose proof WF as (Hc & _ & _).
+  destruct (code_roundtrip _ Hc) as [cv (Hcv & _ & _)].
+  rewrite (add_header_chain st m0 cv WF Hcv) in Hh. injection Hh as <-.
+  pose proof (ins_opt_length (ins_opt (hm_insert (hm_extend m0 (sanitize (st_md st))) hdr_grpc_status cv)
+                         hdr_grpc_message (msg_value st)) hdr_grpc_status_details (details_value st)).
+  pose proof (ins_opt_length (hm_insert (hm_extend m0 (sanitize (st_md st))) hdr_grpc_status cv)
+                         hdr_grpc_message (msg_value st)).
+  pose proof (insert_length (hm_extend m0 (sanitize (st_md st))) hdr_grpc_status cv).
+  pose proof (extend_length m0 (sanitize (st_md st))).
+  pose proof (remove_all_length reserved_headers (st_md st)). unfold sanitize in *. lia.
+Qed.
+
+(* exactly when Status::into_http panics: never on a header value (well-formed status), and on
+   the header map's capacity iff the finished map would hold more than 24576 names *)
+Theorem status_into_http_exact st :
   well_formed st ->
+  exists h, add_header st ct_only = Some h /\
+    status_into_http st = if HEADER_MAP_MAX_NAMES <? names_count h then Panic else Val h.
+Proof.
+  intros WF. destruct (status_into_http_total st WF) as (h & Hv & Hh).
+  exists h. split; [exact Hh|]. unfold status_into_http. now rewrite Hv.
+Qed.
+(* a sufficient bound on the status alone: its metadata has at most 24572 entries *)
+Theorem status_into_http_fits st :
+  well_formed st -> N.of_nat (length (st_md st)) + 4 <= HEADER_MAP_MAX_NAMES ->
+  exists h, add_header st ct_only = Some h /\ status_into_http st = Val h.
+Proof.
+  intros WF Hb. destruct (status_into_http_exact st WF) as (h & Hh & He).
+  exists h. split; [exact Hh|]. rewrite He.
+  pose proof (add_header_length st ct_only h WF Hh) as L. cbn [ct_only hm_insert hm_remove filter app length] in L.
+  pose proof (names_count_le h).
+  replace (HEADER_MAP_MAX_NAMES <? names_count h) with false; [reflexivity|].
+  symmetry. apply N.ltb_ge. lia.
+Qed.
+
+(* the future of a rejected call: the first poll is Ready with HTTP 200, the default version,
+   Status::into_http's headers and the Empty body; it is then spent - any later poll panics
+   (status.take().unwrap()), as polling a completed future may *)
+Lemma rf_run_spent {Fut Err P RB} (fp : fut_impl Fut (Err + (P * RB))) n :
+  rf_run fp (KStatus None) n = repeat Panic n.
+Proof. induction n as [|n IH]; [reflexivity|]. cbn [rf_run rf_poll repeat]. now rewrite IH. Qed.
+Theorem reject_future {Fut Err P RB} (fp : fut_impl Fut (Err + (P * RB))) st h n :
+  status_into_http st = Val h ->
+  rf_run fp (KStatus (Some st)) (S n) =
+    Val (PReady (inr (HStatus HTTP_200 HTTP_11 h, RbEmpty))) :: repeat Panic n.
+Proof. intros H. cbn [rf_run rf_poll]. rewrite H. now rewrite rf_run_spent. Qed.
+Theorem reject_future_over_capacity {Fut Err P RB} (fp : fut_impl Fut (Err + (P * RB))) st n :
+  status_into_http st = Panic ->
+  rf_run fp (KStatus (Some st)) n = repeat (@Panic (poll (Err + http_response P RB))) n.
+Proof. intros H. destruct n as [|n]; [reflexivity|]. cbn [rf_run rf_poll]. rewrite H. now rewrite rf_run_spent. Qed.
+
+(* for ANY interceptor: when it rejects with [st] (well formed, metadata within the header
+   map's capacity), the inner service is not touched, the future is Ready at its first poll
+   with HTTP 200 (default version), the Empty body and headers that are Status::add_header of
+   exactly [st] onto {content-type: application/grpc}: one content-type, one grpc-status, the
+   percent-encoded message and base64 details when non-empty, the sanitised status metadata *)
+Theorem reject_vetoes {IS SS E B Err Fut P RB} (f : interceptor IS E)
+    (inner : svc_impl SS (http_request E B) Err Fut) (fp : fut_impl Fut (Err + (P * RB))) is ss req st is' :
+  f is (mkReq (from_headers (rq_headers req)) (rq_ext req) tt) = (inr st, is') ->
+  well_formed st -> N.of_nat (length (st_md st)) + 4 <= HEADER_MAP_MAX_NAMES ->
   exists h cv,
-    intercepted_call f inner req = ([], Val (inr (HStatus HTTP_200 HTTP_11 h, RbEmpty))) /\
+    intercepted_call f inner (is, ss) req = (KStatus (Some st), (is', ss)) /\
+    (forall n, rf_run fp (KStatus (Some st)) (S n) =
+               Val (PReady (inr (HStatus HTTP_200 HTTP_11 h, RbEmpty))) :: repeat Panic n) /\
     add_header st ct_only = Some h /\ code_to_hv (st_code st) = Some cv /\
     hm_get_all h hdr_content_type = [val_app_grpc] /\
     hm_get_all h hdr_grpc_status = [cv] /\
@@ -126,8 +332,9 @@ Theorem reject_vetoes {E B Err P RB} (f : interceptor E) (inner : http_request E
            | l => l
            end.
 Proof.
-  intros H WF.
+  intros H WF CAP.
   destruct (add_header_wire st ct_only WF) as (h & cv & Hh & Hcv & Hpt).
+  destruct (status_into_http_fits st WF CAP) as (h' & Hh' & Hv). rewrite Hh in Hh'. injection Hh' as <-.
   exists h, cv.
   assert (Hpt' : forall k, hm_get_all h k =
       if set_by hdr_grpc_status_details (details_value st) k then opt_list (details_value st)
@@ -138,9 +345,9 @@ Proof.
            | l => l
            end).
   { intros k. rewrite Hpt, get_all_ct_only. reflexivity. }
-  split; [|split; [exact Hh|split; [exact Hcv|split; [|split; [|split; [|exact Hpt']]]]]].
-  - unfold intercepted_call, request_from_http. cbn [tr_md tr_ext tr_msg]. rewrite H.
-    unfold status_into_http_headers. fold ct_only. now rewrite Hh.
+  split; [exact (reject_never_calls f inner is ss req st is' H)|].
+  split; [intros n; exact (reject_future fp st h n Hv)|].
+  split; [exact Hh|split; [exact Hcv|split; [|split; [|split; [|exact Hpt']]]]].
   - rewrite Hpt'. rewrite (set_by_neq hdr_grpc_status_details _ hdr_content_type eq_refl).
     rewrite (set_by_neq hdr_grpc_message _ hdr_content_type eq_refl). reflexivity.
   - rewrite Hpt'. rewrite (set_by_neq hdr_grpc_status_details _ hdr_grpc_status eq_refl).
@@ -152,54 +359,126 @@ Qed.
 (* ... and a caller that reads those headers with Status::from_header_map recovers precisely
    that status: code, message, details and (name by name) its metadata minus the reserved
    names; the only other entry it sees is the content-type tonic wrote *)
-Theorem reject_status_recovered {E B Err P RB} (f : interceptor E) (inner : http_request E B -> Err + (P * RB)) req st :
-  f (mkReq (from_headers (rq_headers req)) (rq_ext req) tt) = inr st ->
-  well_formed st -> utf8_valid (st_msg st) = true ->
+Theorem reject_status_recovered {IS SS E B Err Fut P RB} (f : interceptor IS E)
+    (inner : svc_impl SS (http_request E B) Err Fut) (fp : fut_impl Fut (Err + (P * RB))) is ss req st is' :
+  f is (mkReq (from_headers (rq_headers req)) (rq_ext req) tt) = (inr st, is') ->
+  well_formed st -> N.of_nat (length (st_md st)) + 4 <= HEADER_MAP_MAX_NAMES ->
+  utf8_valid (st_msg st) = true ->
   hm_get_all (st_md st) hdr_grpc_status_details = [] ->
   exists h st',
-    intercepted_call f inner req = ([], Val (inr (HStatus HTTP_200 HTTP_11 h, RbEmpty))) /\
+    intercepted_call f inner (is, ss) req = (KStatus (Some st), (is', ss)) /\
+    rf_run fp (KStatus (Some st)) 1 = [Val (PReady (inr (HStatus HTTP_200 HTTP_11 h, RbEmpty)))] /\
     from_header_map h = Some st' /\
     st_code st' = st_code st /\ st_msg st' = st_msg st /\ st_details st' = st_details st /\
     forall k, hm_get_all (st_md st') k =
       if bytes_eqb hdr_content_type k then [val_app_grpc] else hm_get_all (sanitize (st_md st)) k.
 Proof.
-  intros H WF Hutf Hnod.
+  intros H WF CAP Hutf Hnod.
   destruct (status_roundtrip_on st ct_only WF Hutf Hnod eq_refl eq_refl)
     as (h & st' & Hh & Hf & Hc & Hm & Hd & Hmd).
-  exists h, st'. split; [|split; [exact Hf|split; [exact Hc|split; [exact Hm|split; [exact Hd|]]]]].
-  - unfold intercepted_call, request_from_http. cbn [tr_md tr_ext tr_msg]. rewrite H.
-    unfold status_into_http_headers. fold ct_only. now rewrite Hh.
-  - intros k. rewrite Hmd, get_all_ct_only.
-    destruct (bytes_eqb k hdr_grpc_status) eqn:K1.
-    { apply bytes_eqb_eq in K1. subst k. cbn [orb]. now rewrite get_all_sanitize, reserved_status. }
-    destruct (bytes_eqb k hdr_grpc_message) eqn:K2.
-    { apply bytes_eqb_eq in K2. subst k. cbn [orb]. now rewrite get_all_sanitize, reserved_message. }
-    destruct (bytes_eqb k hdr_grpc_status_details) eqn:K3.
-    { apply bytes_eqb_eq in K3. subst k. cbn [orb]. rewrite get_all_sanitize, reserved_details. now rewrite Hnod. }
-    cbn [orb]. destruct (bytes_eqb hdr_content_type k) eqn:K4.
-    + apply bytes_eqb_eq in K4. subst k. now rewrite get_all_sanitize.
-    + now destruct (hm_get_all (sanitize (st_md st)) k).
+  destruct (status_into_http_fits st WF CAP) as (h' & Hh' & Hv). rewrite Hh in Hh'. injection Hh' as <-.
+  exists h, st'.
+  split; [exact (reject_never_calls f inner is ss req st is' H)|].
+  split; [exact (reject_future fp st h 0 Hv)|].
+  split; [exact Hf|split; [exact Hc|split; [exact Hm|split; [exact Hd|]]]].
+  intros k. rewrite Hmd, get_all_ct_only.
+  destruct (bytes_eqb k hdr_grpc_status) eqn:K1.
+  { apply bytes_eqb_eq in K1. subst k. cbn [orb]. now rewrite get_all_sanitize, reserved_status. }
+  destruct (bytes_eqb k hdr_grpc_message) eqn:K2.
+  { apply bytes_eqb_eq in K2. subst k. cbn [orb]. now rewrite get_all_sanitize, reserved_message. }
+  destruct (bytes_eqb k hdr_grpc_status_details) eqn:K3.
+  { apply bytes_eqb_eq in K3. subst k. cbn [orb]. rewrite get_all_sanitize, reserved_details. now rewrite Hnod. }
+  cbn [orb]. destruct (bytes_eqb hdr_content_type k) eqn:K4.
+  + apply bytes_eqb_eq in K4. subst k. now rewrite get_all_sanitize.
+  + now destruct (hm_get_all (sanitize (st_md st)) k).
 Qed.
 
-(* the body of a rejected call: no frame at all, already at end of stream, exact size 0 -
-   whatever the inner body type and its functions are *)
-Theorem reject_body_empty {RB F} (fr : RB -> list F) (en : RB -> bool) (sz : RB -> option N) :
-  rb_frames fr (@RbEmpty RB) = [] /\ rb_is_end_stream en (@RbEmpty RB) = true /\
-  rb_size_exact sz (@RbEmpty RB) = Some 0.
-Proof. repeat split. Qed.
-
-(* an accepted call's body is the inner body, frame by frame (data and trailers alike) *)
-Theorem accept_body_wrapped {RB F} (fr : RB -> list F) (en : RB -> bool) (sz : RB -> option N) b :
-  rb_frames fr (RbWrap b) = fr b /\ rb_is_end_stream en (RbWrap b) = en b /\
-  rb_size_exact sz (RbWrap b) = sz b.
-Proof. repeat split. Qed.
-
 (* the scripted interceptors of the harness are instances of the quantified function *)
-Lemma interceptor_of_accepts {E} (a : action E) r :
+Lemma interceptor_of_single {E} (a : action E) n r : interceptor_of [a] n r = (act_apply a r, n + 1).
+Proof.
+  unfold interceptor_of. cbn [length]. change (N.of_nat 1) with 1. rewrite N.mod_1_r. reflexivity.
+Qed.
+Lemma act_apply_accepts {E} (a : action E) r :
   a_reject a = None ->
-  interceptor_of a r =
+  act_apply a r =
     inl (mkReq (fold_left apply_op (a_ops a) (if a_fresh a then [] else tr_md r))
                (match a_ext a with Some e => e | None => tr_ext r end) tt).
-Proof. intros H. unfold interceptor_of. now rewrite H. Qed.
-Lemma interceptor_of_rejects {E} (a : action E) r st : a_reject a = Some st -> interceptor_of a r = inr st.
-Proof. intros H. unfold interceptor_of. now rewrite H. Qed.
+Proof. intros H. unfold act_apply. now rewrite H. Qed.
+Lemma act_apply_rejects {E} (a : action E) r st : a_reject a = Some st -> act_apply a r = inr st.
+Proof. intros H. unfold act_apply. now rewrite H. Qed.
+
+(* ------------------------------------------------------------------ scripted actions *)
+(* a mutation through the typed MetadataMap API touches only the name it is aimed at (the key
+   as http normalises it); an invalid key or value touches nothing *)
+Definition op_names (op : N * (list N * list N)) (k : hname) : Prop := hn_norm (fst (snd op)) = Some k.
+Lemma bytes_eqb_neq a b : a <> b -> bytes_eqb a b = false.
+Proof. intros H. destruct (bytes_eqb a b) eqn:E; [|reflexivity]. apply bytes_eqb_eq in E. contradiction. Qed.
+Lemma mk_key_norm bin raw k' : mk_key bin raw = Some k' -> hn_norm raw = Some k'.
+Proof. unfold mk_key. destruct (hn_norm raw) as [k0|]; [|discriminate]. destruct (Bool.eqb _ _); [|discriminate]. now intros [= ->]. Qed.
+Lemma apply_op_other m op k : ~ op_names op k -> hm_get_all (apply_op m op) k = hm_get_all m k.
+Proof.
+  destruct op as (t, (raw, v)). unfold op_names. cbn [fst snd]. intros NK. unfold apply_op.
+  assert (OTHER : forall k', hn_norm raw = Some k' -> bytes_eqb k' k = false).
+  { intros k' Hk'. apply bytes_eqb_neq. intros ->. now apply NK. }
+  destruct (t <? 2).
+  - destruct (mk_key false raw) as [k'|] eqn:K; [|reflexivity].
+    destruct (ascii_from_bytes v) as [hv|]; [|reflexivity].
+    pose proof (OTHER _ (mk_key_norm _ _ _ K)) as O.
+    destruct (t =? 0); unfold insert, append.
+    + now rewrite get_all_insert, O.
+    + now rewrite get_all_append, O, app_nil_r.
+  - destruct (t <? 4).
+    + destruct (mk_key true raw) as [k'|] eqn:K; [|reflexivity].
+      destruct (bin_try_from_bytes v) as [hv|]; [|reflexivity].
+      pose proof (OTHER _ (mk_key_norm _ _ _ K)) as O.
+      destruct (t =? 2); unfold insert, append.
+      * now rewrite get_all_insert, O.
+      * now rewrite get_all_append, O, app_nil_r.
+    + destruct (t =? 4); unfold remove, remove_bin, str_lookup;
+        (destruct (negb _); [reflexivity|]);
+        (destruct (hn_norm raw) as [k'|] eqn:K; [|reflexivity]);
+        now rewrite get_all_remove, (OTHER _ eq_refl).
+Qed.
+Lemma apply_ops_other ops k : forall m,
+  Forall (fun op => ~ op_names op k) ops -> hm_get_all (fold_left apply_op ops m) k = hm_get_all m k.
+Proof.
+  induction ops as [|op ops IH]; intros m H; [reflexivity|]. inversion H as [|? ? H1 H2]; subst.
+  cbn [fold_left]. rewrite (IH _ H2). now apply apply_op_other.
+Qed.
+
+(* an interceptor that mutates the incoming metadata through the typed API (insert / append /
+   remove, ASCII or binary, valid or not) and accepts: every header NAME that none of its
+   mutations is aimed at reaches the inner service with the values the caller sent - reserved
+   names included - with the original method, uri, version and body, and the original
+   extensions unless it replaced them *)
+Theorem scripted_changes_only_named {SS Err Fut} (inner : svc_impl SS hreq Err Fut) (a : action ext_t) n ss req k :
+  a_reject a = None -> a_fresh a = false ->
+  Forall (fun op => ~ op_names op k) (a_ops a) ->
+  exists req',
+    intercepted_call (interceptor_of [a]) inner (n, ss) req =
+      (KFuture (fst (sv_call inner ss req')), (n + 1, snd (sv_call inner ss req'))) /\
+    hm_get_all (rq_headers req') k = hm_get_all (rq_headers req) k /\
+    rq_method req' = rq_method req /\ rq_uri req' = rq_uri req /\ rq_version req' = rq_version req /\
+    rq_body req' = rq_body req /\
+    rq_ext req' = match a_ext a with Some e => e | None => rq_ext req end.
+Proof.
+  intros HR HF HO.
+  pose proof (interceptor_of_single a n (mkReq (from_headers (rq_headers req)) (rq_ext req) tt)) as HI.
+  rewrite (act_apply_accepts a _ HR), HF in HI. cbn [tr_md tr_ext] in HI.
+  destruct (accept_untouched (interceptor_of [a]) inner n ss req _ (n + 1) k HI) as (req' & H1 & H2 & H3 & H4 & H5 & H6 & H7).
+  { cbn [tr_md]. unfold from_headers. now apply apply_ops_other. }
+  exists req'. repeat split; assumption.
+Qed.
+
+(* ------------------------------------------------------------------ example values (Props/C12.v) *)
+Definition ex_req : hreq :=
+  mkHttpReq [80; 79; 83; 84] [47; 115; 47; 109] 20
+    [ ([116; 101], [116; 114; 97; 105; 108; 101; 114; 115]); ([120; 45; 97], [49]);
+      ([120; 45; 112; 45; 98; 105; 110], [65; 80; 56; 72]); ([120; 45; 97], [50]);
+      ([99; 111; 110; 116; 101; 110; 116; 45; 116; 121; 112; 101], [120]) ]
+    (Some 7, None) [1; 2; 3].
+Definition ex_status : status := mkStatus 16 [110; 111; 32; 37] [] [([120; 45; 119], [104]); ([116; 101], [120])].
+Definition ex_acts : list (action ext_t) :=
+  [ mkAction false [(0, ([120; 45; 97], [57])); (1, ([116; 101], [122]))] (Some (None, Some [116])) None;
+    mkAction false [] None (Some ex_status) ].
+
